@@ -233,6 +233,12 @@ pub mod probes {
     pub fn probe_thread_name(branch: u8, step: u8) -> Option<String> {
         PROBES.lock().unwrap_or_else(|e| e.into_inner()).iter().find(|x| x.branch == branch && x.step == step).and_then(|x| x.name.clone())
     }
+    // panic injection leaves detached threads / tasks behind (the siblings of the panicking branch): their late events
+    // must not leak into the next run, so every run has an epoch and an event is recorded only under the epoch it was
+    // created for
+    static EPOCH: AtomicUsize = AtomicUsize::new(0);
+    pub fn epoch_begin() -> usize { super::reset(); EPOCH.fetch_add(1, Ordering::SeqCst) + 1 }
+    pub fn ev_e(epoch: usize, c: u16) { if EPOCH.load(Ordering::SeqCst) == epoch { super::ev(c); } }
     static RELEASE: std::sync::atomic::AtomicBool = std::sync::atomic::AtomicBool::new(false);
     pub fn hold_reset() { RELEASE.store(false, Ordering::SeqCst); }
     pub fn release() { RELEASE.store(true, Ordering::SeqCst); }
